@@ -16,9 +16,9 @@
 //! Not run (resource guard, counted in `skipped`): lines whose ranges would expand to more than
 //! 100 000 numbers (finding K6), `random` / `t-wise` with a limit above 64, `save-*` with an
 //! absolute path outside the scratch directory.
-//! TODO(CNF-loaded models): needs the compiler stand-in (hook H1) registered in this harness;
-//! until then clause-update / undo-update / save-cnf are exercised on nnf-loaded models only
-//! (their E5 / E4 paths).
+//! CNF-loaded models (compiler stand-in, hook H1): kind C13U (update_histories) runs `enum` across
+//! accepted clause-update / undo-update lines; the exhaustive line space is run on nnf-loaded
+//! models only (clause-update / undo-update / save-cnf: their E5 / E4 paths).
 use crate::common::*;
 use crate::k_c01::{make_input, write_models, Source};
 use crate::k_enum::fmt_choices;
@@ -325,9 +325,6 @@ pub fn stream_case(id: &str, inp: &crate::k_c01::Input, lines: &[String]) -> Str
         Ok(mut d) => {
             s.push_str(&dump_circuit(&d));
             writeln!(s, "profile {}", profile).unwrap();
-            if guarded(hook::reset_enumeration_cache).is_err() {
-                writeln!(s, "cursor_poisoned 1").unwrap();
-            }
             let scratch = format!("{}/../.cache/run/C13/unused-{}.nnf", env!("CARGO_MANIFEST_DIR"), std::process::id());
             for l in lines {
                 run_entry(&mut d, &Entry { flag: 'w', line: l.clone() }, Some(&inp.lines[..]), n, &scratch, &mut s);
@@ -366,6 +363,179 @@ pub fn query_lines(cmd: &str, n: u32, rng: &mut Rng, count: usize) -> Vec<String
         out.push(format!("{} {}", cmd, groups.join(" ")).trim().to_string());
     }
     out
+}
+
+fn circuit_line(d: &Ddnnf) -> String {
+    let dump = dump_circuit(d);
+    let nodes: Vec<&str> = dump.lines().skip(1).collect();
+    format!("NC {} {}", d.number_of_variables, nodes.join(" ; "))
+}
+
+/// Kind C13U: enumeration across model updates inside one stream session.
+/// A CNF-loaded model (compiler stand-in, hook H1) answers a history of `enum` / `count` /
+/// `clause-update add|rmv` / `undo-update` lines through `handle_stream_msg`.  The harness keeps
+/// the clause set the session is at (an abstract two-slot machine: current / previous, `undo`
+/// swaps them) and writes after every line
+///   T <masks>      the truth table of the clause set the session is at after the line
+///   NC <n> <nodes> the node vector of the live model after the line
+/// Updates are chosen satisfiable (an unsatisfiable update panics: finding K9, not this check's
+/// business), add only clauses not in the set, remove only clauses added by this history.  Every
+/// second update is picked to leave FEWER configurations than the position the cursor of the
+/// empty assumption set has reached.  What is right is decided by ocaml/chk_c13.ml (check_update).
+fn update_histories(ctx: &Ctx, rng: &mut Rng, profile: &str, scratch: &str, out: &mut dyn Write) {
+    use crate::gen::{models, Cnf};
+    let thorough = ctx.tier == "thorough";
+    crate::cnfc::register();
+    let ncases = if thorough { 150 } else { 30 };
+    for case in 0..ncases {
+        let n = 2 + rng.below(4) as u32; // 2..5
+        // a start CNF with at least 4 configurations
+        let mut cnf: Cnf;
+        loop {
+            let m = rng.below(n as u64) as usize;
+            cnf = random_cnf(rng, n, m, 3);
+            cnf.retain(|c| !c.is_empty());
+            for c in cnf.iter_mut() {
+                c.sort_by_key(|l| l.abs());
+            }
+            cnf.sort();
+            cnf.dedup();
+            if models(&cnf, n).len() >= 4 {
+                break;
+            }
+        }
+        let path = std::path::Path::new(scratch).join(format!("c13u-{}-{}-{}.cnf", std::process::id(), profile, case));
+        crate::cnfc::write_dimacs(&path, &cnf, n);
+        let loaded = guarded(|| ddnnife::parser::build_ddnnf(&path, Some(n)));
+        let _ = std::fs::remove_file(&path);
+        let mut s = String::new();
+        writeln!(s, "case c13u-{}-{} C13U", profile, case).unwrap();
+        writeln!(s, "info CNF-loaded model, enum across clause-update / undo-update | {} | start CNF {:?}", profile, cnf).unwrap();
+        writeln!(s, "n {}", n).unwrap();
+        writeln!(s, "cursor_per_model {}", CURSOR_PER_MODEL as u8).unwrap();
+        let mut d = match loaded {
+            Ok(d) => d,
+            Err(e) => {
+                writeln!(s, "impl panic {}", e).unwrap();
+                writeln!(s, "end").unwrap();
+                out.write_all(s.as_bytes()).unwrap();
+                continue;
+            }
+        };
+        s.push_str(&dump_circuit(&d));
+        writeln!(s, "profile {}", profile).unwrap();
+        writeln!(s, "T {}", join(&models(&cnf, n))).unwrap();
+        let mut cur = cnf.clone();
+        let mut prev: Option<Cnf> = None;
+        let mut added: Vec<Vec<i32>> = Vec::new();
+        let mut handed = 0usize; // configurations handed out for the empty assumption set since the last update
+        let steps = if thorough { 24 } else { 14 };
+        let mut updates = 0;
+        for step in 0..steps {
+            let count = models(&cur, n).len();
+            let mut next_cur: Option<(Cnf, Option<Cnf>)> = None; // (current, previous) if the line is accepted
+            let line = match if step == 0 { 0 } else { rng.below(10) } {
+                0 | 1 | 2 => {
+                    // move the cursor of the empty assumption set, mostly not to a cycle boundary
+                    let k = 1 + rng.below(count as u64) as usize;
+                    handed += k;
+                    format!("enum l {}", k)
+                }
+                3 => "enum".to_string(),
+                4 => {
+                    let f = 1 + rng.below(n as u64) as i32;
+                    format!("enum a {} l {}", if rng.coin() { f } else { -f }, 1 + rng.below(3))
+                }
+                5 => "count".to_string(),
+                6 if prev.is_some() || rng.chance(1, 4) => {
+                    if let Some(p) = prev.clone() {
+                        next_cur = Some((p, Some(cur.clone())));
+                    } else {
+                        next_cur = Some((cur.clone(), None));
+                    }
+                    "undo-update".to_string()
+                }
+                7 if !added.is_empty() && added.iter().any(|c| cur.contains(c)) => {
+                    let present: Vec<Vec<i32>> = added.iter().filter(|c| cur.contains(c)).cloned().collect();
+                    let c = rng.pick(&present).clone();
+                    let mut nc = cur.clone();
+                    nc.retain(|x| *x != c);
+                    next_cur = Some((nc, Some(cur.clone())));
+                    format!("clause-update rmv {} 0", join(&c))
+                }
+                _ => {
+                    // add a clause that is not in the set and keeps the formula satisfiable;
+                    // every second update: prefer one that leaves fewer configurations than the
+                    // cursor position of the empty assumption set
+                    let pos = handed % count.max(1);
+                    let want_shrink = updates % 2 == 0 && pos > 0;
+                    let mut best: Option<(Vec<i32>, usize)> = None;
+                    for _ in 0..40 {
+                        let w = 1 + rng.below(2.min(n as u64)) as usize;
+                        let mut c: Vec<i32> = Vec::new();
+                        for _ in 0..w {
+                            let v = 1 + rng.below(n as u64) as i32;
+                            if !c.iter().any(|l| l.abs() == v) {
+                                c.push(if rng.coin() { v } else { -v });
+                            }
+                        }
+                        c.sort_by_key(|l| l.abs());
+                        if cur.contains(&c) {
+                            continue;
+                        }
+                        let mut nc = cur.clone();
+                        nc.push(c.clone());
+                        let m = models(&nc, n).len();
+                        if m == 0 || m == count {
+                            continue;
+                        }
+                        let good = if want_shrink { m <= pos } else { true };
+                        if best.is_none() || (good && best.as_ref().map(|b| !(b.1 <= pos)).unwrap_or(true)) {
+                            best = Some((c, m));
+                        }
+                        if good {
+                            break;
+                        }
+                    }
+                    match best {
+                        Some((c, _)) => {
+                            let mut nc = cur.clone();
+                            nc.push(c.clone());
+                            nc.sort();
+                            next_cur = Some((nc, Some(cur.clone())));
+                            added.push(c.clone());
+                            updates += 1;
+                            format!("clause-update add {} 0", join(&c))
+                        }
+                        None => "count".to_string(),
+                    }
+                }
+            };
+            writeln!(s, "L u {}", hex(&line)).unwrap();
+            writeln!(s, "# {}", readable(&line)).unwrap();
+            let r = guarded(|| d.handle_stream_msg(&line));
+            match &r {
+                Ok(a) => writeln!(s, "R {}", hex(a)).unwrap(),
+                Err(m) => writeln!(s, "P {}", m).unwrap(),
+            }
+            if let (Some((c, p)), Ok(a)) = (next_cur, &r) {
+                if a.is_empty() {
+                    cur = c;
+                    prev = p;
+                    handed = 0;
+                }
+            }
+            writeln!(s, "T {}", join(&models(&cur, n))).unwrap();
+            writeln!(s, "{}", circuit_line(&d)).unwrap();
+            if r.is_err() {
+                break; // the instance is in an unknown state after a panic
+            }
+        }
+        let clean = d.verif_markers().iter().all(|m| !m) && d.md.is_empty();
+        writeln!(s, "clean {}", clean as u8).unwrap();
+        writeln!(s, "end").unwrap();
+        out.write_all(s.as_bytes()).unwrap();
+    }
 }
 
 pub fn run(_kind: &str, ctx: &Ctx, out: &mut dyn Write) {
@@ -507,11 +677,7 @@ pub fn run(_kind: &str, ctx: &Ctx, out: &mut dyn Write) {
                         s.push_str(&dump_circuit(&d));
                         writeln!(s, "profile {}", profile).unwrap();
                         writeln!(s, "scratch {}", al.scratch_path).unwrap();
-                        // forget the cursors of earlier blocks (hook H3); a poisoned cursor lock
-                        // (an earlier panic inside enumerate) is reported, not fatal
-                        if guarded(hook::reset_enumeration_cache).is_err() {
-                            writeln!(s, "cursor_poisoned 1").unwrap();
-                        }
+                        // the instance of this block is freshly loaded: its cursor is fresh (F21)
                         for e in chunk {
                             // probe battery before and after a sampled subset of the lines
                             let probed = rng.chance(1, 8);
@@ -572,32 +738,43 @@ pub fn run(_kind: &str, ctx: &Ctx, out: &mut dyn Write) {
         writeln!(s, "end").unwrap();
         out.write_all(s.as_bytes()).unwrap();
     }
-    // ---- finding K2 seen from C13 (debug profile only: the release profile wraps and is not
-    // modelled): the enumeration cursor is process-global and keyed by the assumptions only, so a
-    // cursor left by a model with more configurations makes `enum` on a smaller model underflow
-    // `range.1 - range.0` in enumerate_node.
-    if cfg!(debug_assertions) {
+    // ---- enumeration state and OTHER models / model updates (was finding K2; repaired by F21).
+    // (a) Two models in one process: a page handed out by a model with 8 configurations must not
+    // move the cursor of a model with 3 (before F21 the cursor was process-global and keyed by the
+    // assumptions only: `enum` on the smaller model then underflowed `range.1 - range.0` in
+    // enumerate_node - panic in debug builds, a wrapped take() in release builds).  An ordinary C13
+    // block for the smaller model: exact answers against the Coq model (fresh cursor) and the
+    // truth-table rule for `enum`; `other_model` marks the block for the signature.
+    {
         let big: Vec<String> = vec!["t 1 0".to_string()]; // 3 free features: 8 configurations
         let small: Vec<String> = vec!["o 1 0".to_string(), "t 2 0".to_string(), "1 2 1 0".to_string(), "1 2 -1 2 0".to_string()];
         if let (Ok(mut a), Ok(mut b)) = (load(&big, Some(3)), load(&small, Some(2))) {
             let mut s = String::new();
             writeln!(s, "case c13-{}-k2 C13", profile).unwrap();
-            writeln!(s, "info two models in one process share the enumeration cursor | {}", profile).unwrap();
+            writeln!(s, "info two models in one process, each with its own enumeration cursor | {}", profile).unwrap();
             writeln!(s, "n 2").unwrap();
+            // x1 or (not x1 and x2): masks (bit 0 = feature 1)
+            writeln!(s, "src_count 3").unwrap();
+            writeln!(s, "src_models 1 2 3").unwrap();
             s.push_str(&file_block("d4", &small));
             s.push_str(&dump_circuit(&b));
             writeln!(s, "profile {}", profile).unwrap();
-            let _ = guarded(hook::reset_enumeration_cache);
-            // the other model hands out a page of 5: cursor [] -> 5
+            // the other model hands out a page of 5 (its cursor for the empty assumption set -> 5)
             let other = guarded(|| a.handle_stream_msg("enum l 5"));
-            writeln!(s, "foreign_cursor 5 {}", hex(&other.unwrap_or_else(|m| format!("PANIC {}", m)))).unwrap();
-            run_entry(&mut b, &Entry { flag: 'g', line: "enum".to_string() }, None, 2, "/nonexistent", &mut s);
-            // leave a usable cursor behind
-            let _ = guarded(hook::reset_enumeration_cache);
+            writeln!(s, "other_model {}", hex(&other.unwrap_or_else(|m| format!("PANIC {}", m)))).unwrap();
+            for l in ["enum", "enum l 2", "enum l 2"] {
+                run_entry(&mut b, &Entry { flag: 'g', line: l.to_string() }, None, 2, "/nonexistent", &mut s);
+                // ... and keeps paging in between
+                let _ = guarded(|| a.handle_stream_msg("enum l 3"));
+            }
             writeln!(s, "end").unwrap();
             out.write_all(s.as_bytes()).unwrap();
         }
     }
+    // (b) One stream session on a CNF-loaded model (stand-in compiler, hook H1): `enum` pages,
+    // clause-update / undo-update replace the model (also by one with fewer configurations than
+    // the cursor position), `enum` again.  Kind C13U, see update_histories.
+    update_histories(ctx, &mut rng, profile, &scratch, out);
     // a last block that only carries the statistics of the generator
     let mut s = String::new();
     writeln!(s, "case c13-{}-stats C13", profile).unwrap();
